@@ -504,6 +504,11 @@ func (pp *pipe) checkAll() {
 		if got, _ := e.Tracked(vb); got != want {
 			pp.fail("vb%d tracked position %d, furthest settled %d", vb, got, want)
 		}
+		// C04: the consumer's offset tracker has been told this position (whatever moved it there: an
+		// acknowledgement, a system / seqno-advanced event, a library-internal document)
+		if ts := e.Cons.TrackSeq[vb]; want > pp.resume[vb] && (len(ts) == 0 || ts[len(ts)-1] != want) {
+			pp.fail("vb%d: the position is %d, the consumer's offset tracker was last told %v", vb, want, ts)
+		}
 		// C06: every TrackOffset argument is a legal, untorn tuple
 		offs, _, _ := e.Stream.GetOffsets()
 		if o, ok := offs.Load(vb); ok && o.SnapshotMarker != nil {
